@@ -181,4 +181,21 @@ CHECKS = {
         "design_ref": "DESIGN.md section 4, C11",
         "min_obs": {"transcripts": 5000, "served": 500},
     },
+    "C12": {
+        "scenarios": [("C12-decide", "vsim"), ("C12-e2e", "vreal")],
+        "rule": "(a) decision level: 25 IPv4 addresses (boundaries of 127/8, 10/8, 172.16/12, 192.168/16, 0.0.0.0, public) each as 4-byte "
+                "and as IPv4-mapped 16-byte form, 11 IPv6 addresses (::1, ::, boundaries of fc00::/7, public), the zero-length name, 8 "
+                "well-known local names in lower/random/upper case, 9 other names x {CONNECT, UDP-ASSOCIATE} x 6 users (none, unknown, no "
+                "flags, loopback only, private only, both) x generated rule lists (CIDR, '*', suffix domains, invalid CIDR, overlapping, "
+                "DIRECT/REJECT/PROXY), compared with a reference decision; (b) end to end on kernel sockets: CONNECT and relayed UDP "
+                "datagrams towards listeners on 127.0.0.1, ::1 and fd00::2, reply code and arrivals observed; distinct = rule list / "
+                "(user, target, mode)",
+        "technique": "runtime monitor: reference decision model vs FindAction over enumerated destination encodings; arrivals at "
+                     "loopback/private listeners observed for real requests through socks5.Server.ServeConn",
+        "text": "Every (destination encoding, command, user, rule list) decision is compared with a reference written from the statement "
+                "and the rule documentation; end-to-end requests are judged by what arrives at the listeners.",
+        "note": "trusted: the reference classification and rule evaluation; kernel loopback delivery for the end-to-end part",
+        "design_ref": "DESIGN.md section 4, C12",
+        "min_obs": {"decisions": 20000, "e2e_requests": 50},
+    },
 }
